@@ -37,7 +37,7 @@ TraceInit ==
   /\ l = 1 /\ bad = "" /\ badl = 0 /\ umap = <<>> /\ lastop = ""
   /\ acts = <<>> /\ cur = [c \in Ctx |-> 0] /\ blocks = [c \in Ctx |-> <<>>]
   /\ born = [c \in Ctx |-> c = 1] /\ base = [c \in Ctx |-> 0] /\ nuuid = 0 /\ ids = <<>>
-  /\ dests = Traces[tid].init /\ anyAdded = (Traces[tid].init # <<>>) /\ buffer = <<>> /\ gf = {}
+  /\ dests = Traces[tid].init /\ anyAdded = (Traces[tid].init # <<>>) /\ buffer = <<>> /\ gf = {} /\ reg = {}
   /\ offered = [d \in Dest |-> <<>>] /\ work = <<>> /\ call = NoCall /\ ret = NoCall
   /\ nfaults = 0 /\ nmsgs = 0 /\ nodes = <<>> /\ dev = {} /\ hist = <<>>
   /\ gh = [expect |-> [d \in Dest |-> <<>>], pre |-> <<>>, nser |-> 0, ntb |-> 0, fail |-> {},
@@ -67,7 +67,8 @@ DoCall(c) ==
     [] op = "Log"          -> IF CanLog(c) THEN Log(c, Ev.ty) ELSE FALSE
     [] op = "ActionLog"    -> IF CanActionLog(c, Ev.a) THEN ActionLog(c, Ev.a, Ev.ty) ELSE FALSE
     [] op = "AddSuccess"   -> AddSuccess(c, Ev.a, Ev.f)
-    [] op = "WriteTraceback" -> IF CanLog(c) THEN WriteTraceback(c) ELSE FALSE
+    [] op = "WriteTraceback" -> IF CanLog(c) THEN WriteTraceback(c, Ev.o) ELSE FALSE
+    [] op = "Register"     -> Register(c, Ev.k)
     [] op = "SerializeId"  -> IF CanSerializeId(c) THEN SerializeId(c) ELSE FALSE
     [] op = "ContinueTask" -> IF CanContinue(c, Ev.i) THEN ContinueTask(c, Ev.i) ELSE FALSE
     [] op = "Spawn"        -> Spawn(c, Ev.c2, Ev.kind)
@@ -91,6 +92,7 @@ WellFormedCall(c) ==
        [] op = "AddDests" -> ToSet(Ev.S) # {} /\ ToSet(Ev.S) \cap Range(dests) = {}
        [] op = "RemoveDest" -> Ev.d \in Range(dests)
        [] op = "AddGlobal" -> Ev.f \notin gf
+       [] op = "Register" -> Ev.k \notin reg
        [] OTHER -> TRUE
 TCall ==
   /\ Live /\ ~SilentEnabled /\ Ev.e = "call"
@@ -127,17 +129,18 @@ TDeliver ==
   /\ IF ~CanDeliver THEN Flag("unexpected_delivery:" \o Ev.m.kind)
      ELSE IF Ev.d \notin Range(Pending(Top)) THEN Flag("duplicate_delivery:" \o KindOf(Top.m))
      ELSE IF MsgClause(Top.m) # "" THEN Flag(MsgClause(Top.m) \o ":" \o KindOf(Top.m))
-     ELSE /\ Deliver(Ev.d, Ev.raised) /\ Step /\ UNCHANGED lastop
+     ELSE /\ (IF Ev.abort THEN DeliverAbort(Ev.d) ELSE Deliver(Ev.d, Ev.raised)) /\ Step /\ UNCHANGED lastop
           /\ umap' = IF Top.m.u \in DOMAIN umap THEN umap ELSE (Top.m.u :> Ev.m.u) @@ umap
 
 \* the public call returned (or raised) to the application
 TRet ==
   /\ Live /\ ~SilentEnabled /\ Ev.e = "ret"
   /\ IF call.c = 0 THEN Flag("HARNESS.return_without_call")
+     ELSE IF Ev.v = "raised" /\ call.v = "ok" THEN Flag("call_raised:" \o (IF work # <<>> THEN "pending" ELSE "clean"))
      ELSE IF work # <<>> THEN (IF Top.t = "send" THEN Flag("missing_delivery:" \o KindOf(Top.m) \o (IF Top.done = {} THEN ":none" ELSE ":some"))
                                ELSE Flag("serializer_not_called"))
      ELSE IF Ev.v # call.v
-          THEN (IF call.v = "ok" THEN Flag("call_raised") ELSE Flag("exception_not_propagated:" \o Ev.v))
+          THEN (IF call.v = "ok" THEN Flag("call_raised:" \o Ev.v) ELSE Flag("exception_not_propagated:" \o Ev.v))
      ELSE IF Ev.cur # cur[call.c] THEN Flag("current_action_after:" \o lastop)
      ELSE Return /\ Step /\ UNCHANGED <<umap, lastop>>
 
